@@ -1142,7 +1142,7 @@ def _judge_concat_refit(sc):
 # Byte comparisons cannot see state shared through callables (a partial bound to the node, a weak reference, a closure), so the
 # copy is compared with TWINS: objects built and trained exactly like the original, which then go through exactly the same calls.
 CLASS_KINDS = ["ipreservoir", "ipreservoir-in-model", "reservoir", "nvar", "delay", "ridge", "lms", "rls", "force", "esn", "sklearn",
-               "tanh", "softmax", "sigmoid", "input-output", "concat"]
+               "tanh", "softmax", "sigmoid", "input-output", "concat", "ridge-pending"]
 
 
 def _class_spec(sc):
@@ -1188,6 +1188,10 @@ def _class_spec(sc):
         return (lambda t: N.Delay(delay=dl, name=t)), (lambda o: o.run(X1.copy())) if sc["trained"] else none, run2, din
     if kind == "ridge":
         return (lambda t: N.Ridge(ridge=float(Fraction(1, 32)), name=t)), fit, refit, din
+    if kind == "ridge-pending":
+        # a readout copied BETWEEN partial_fit and fit: the pending partial sums (XXT / YXT buffers) belong to each side separately
+        return ((lambda t: N.Ridge(ridge=float(Fraction(1, 32)), name=t)), (lambda o: o.partial_fit(X1.copy(), Y1.copy())),
+                (lambda o: (o.partial_fit(X2.copy(), Y2.copy()), o.fit())), din)
     if kind in ("lms", "rls", "force"):
         mk = {"lms": lambda t: N.LMS(alpha=float(Fraction(1, 16)), name=t), "rls": lambda t: N.RLS(alpha=float(Fraction(1, 4)), name=t),
               "force": lambda t: N.FORCE(alpha=float(Fraction(1, 4)), name=t)}[kind]
